@@ -207,14 +207,59 @@ def pmap(fn, items, jobs=None, timeout=None):
 
 
 def pqueue(fn, initial, jobs=None, timeout=None):
-    """Dynamic work queue on top of forked workers: fn(item) -> (result, [new items]); yields results."""
+    """Dynamic work queue on forked workers: fn(item) -> (result, [new items]); yields the results.
+    No barriers: a finished worker is replaced at once by the next pending item."""
     pending = list(initial)
     jobs = jobs or NCPU
-    while pending:
-        batch, pending = pending[:jobs * 4], pending[jobs * 4:]
-        for res, new_items in pmap(fn, batch, jobs, timeout):
+    timeout = timeout or float(os.environ.get('VF_JOB_TIMEOUT', '3600'))
+    tmpdir = tempfile.mkdtemp(prefix='vf_pq_')
+    running = {}
+    seq = 0
+    try:
+        while pending or running:
+            while pending and len(running) < jobs:
+                item = pending.pop()
+                path = os.path.join(tmpdir, f'r{seq}')
+                sys.stdout.flush()
+                sys.stderr.flush()
+                pid = os.fork()
+                if pid == 0:
+                    _run_child(fn, item, path)
+                running[pid] = (path, time.time())
+                seq += 1
+            pid, status = os.waitpid(-1, os.WNOHANG)
+            if pid == 0:
+                now = time.time()
+                for _p, (_path, start) in running.items():
+                    if now - start > timeout:
+                        raise HarnessError(f'queue worker exceeded {timeout}s')
+                time.sleep(0.003)
+                continue
+            if pid not in running:
+                continue
+            path, _start = running.pop(pid)
+            if not os.path.exists(path):
+                raise HarnessError(f'queue worker died (status {status}) without a result')
+            with open(path, 'rb') as fh:
+                tag, res = pickle.load(fh)
+            os.unlink(path)
+            if tag != 'ok':
+                raise HarnessError('worker failed:\n' + res)
+            result, new_items = res
             pending.extend(new_items)
-            yield res
+            yield result
+    finally:
+        for p in running:
+            try:
+                os.kill(p, signal.SIGKILL)
+            except OSError:
+                pass
+        for p in running:
+            try:
+                os.waitpid(p, 0)
+            except OSError:
+                pass
+        shutil.rmtree(tmpdir, ignore_errors=True)
 
 
 def load_known():
